@@ -163,11 +163,19 @@ def rules(ctx: Ctx) -> None:
     of = prog.try_fn("SqlFluffColumn.of")
     ctx.touched(of)
     alias_first = False
-    # the alias is the second component of the (source columns, alias) pair extracted from the select item
-    alias_names = {name for name in {x.id for x in ast.walk(of.node) if isinstance(x, ast.Name)}
-                   if any(kind == "unpack:1" and isinstance(node, ast.Assign) and isinstance(node.value, ast.Call) and "alias" in u(node.value.func) for kind, node in prog.local_defs(of, name))}
+    # the alias is what extract_identifier() gives for the select item's alias_expression child; when present it names the column and the
+    # column is marked from_alias, before the column's own name is considered
+    oflow = flow(prog, of)
+
+    def _is_alias_value(name: str) -> bool:
+        for src in prog.value_sources(of, ast.Name(id=name, ctx=ast.Load())):
+            if isinstance(src, ast.Call) and isinstance(src.func, ast.Name) and src.func.id == "extract_identifier":
+                if any(p and "alias_expression" in t and ".type" in t for t, p in oflow.facts_for(src)):
+                    return True
+        return False
+
     for n in prog.walk_fn(of):
-        if isinstance(n, ast.If) and isinstance(n.test, ast.Name) and n.test.id in alias_names and any(isinstance(k, ast.Return) and isinstance(k.value, ast.Call) and k.value.args and u(k.value.args[0]) == n.test.id for k in n.body):
+        if isinstance(n, ast.If) and isinstance(n.test, ast.Name) and _is_alias_value(n.test.id) and any(isinstance(k, ast.Return) and isinstance(k.value, ast.Call) and k.value.args and u(k.value.args[0]) == n.test.id for k in n.body):
             alias_first = True
     ctx.ob("R02.1", "alias-names-the-target-column", alias_first, of.loc(), "a select alias, when present, names the target column before the column's own name is considered")
     # explicit list site and metadata site both exist in the INSERT extractor
